@@ -198,4 +198,17 @@ theorem compile_preserves (tbl : CodeTable) (src : Src) (n : Nat) (pfx : String)
       List.map_append, and_self]
   · rw [hcomp, hemit, kinLines s, hpfx, hA.kinetics]
 
+/-- a small component used by the non-vacuity examples of C01: two atomic sequences (one with a wildcard),
+    a super-sequence with a quoted wildcard region and a starred item, a strand using `domains(s*)`, a structure
+    in run-length notation with a fractional optimisation bound, a kinetic statement, two ports -/
+def exampleSrc : Src :=
+  { name := "c", params := [], inputs := [⟨"a", false, none⟩], outputs := [⟨"s", true, some "T"⟩],
+    stmts := [
+      .seq "a" [.nuc "3N".toList] none,
+      .seq "b" [.nuc "2S ?W".toList] (some 4),
+      .seq "s" [.ref "a" false, .nuc "2R ?Y".toList, .ref "b" true] (some 10),
+      .strand false "X" [.ref "s" false, .domains "s" true] none,
+      .struct (.value "2.50") "T" ["X"] false "10( 10)".toList,
+      .kinetic none (some "100") ["T"] ["T"] ] }
+
 end Pepper.Comp
